@@ -46,6 +46,9 @@ func Slice(y tensor.Tensor, x tensor.Tensor, index []tensor.Range) (gctx *GradCo
 		return NewGradContext(false)
 	}
 
+	// the closure outlives the call: do not alias the caller's slice
+	index = append([]tensor.Range(nil), index...)
+
 	return &GradContext{
 		tracked: true,
 		backEdges: []*backwardEdge{
@@ -66,6 +69,9 @@ func Patch(y tensor.Tensor, x tensor.Tensor, p tensor.Tensor, index []tensor.Ran
 	if nonIsTracked(x, p) {
 		return NewGradContext(false)
 	}
+
+	// the closures outlive the call: do not alias the caller's slice
+	index = append([]tensor.Range(nil), index...)
 
 	return &GradContext{
 		tracked: true,
